@@ -26,4 +26,7 @@ type Type struct {
 	MakeFromBytes     func([]byte) (Record, error)
 	MustMakeFromBytes func([]byte) Record
 	MustUnmarshal     func(Record, []byte)
+	// NewFunc is the generated New<T>(fields...) constructor of a readonly struct (a func
+	// value, called through reflection), nil otherwise.
+	NewFunc interface{}
 }
